@@ -26,6 +26,8 @@ pub enum OpKind {
     Write,
     /// sync_all
     Sync,
+    /// a background task of the worker is about to return (the "path" is the task's name); never recorded
+    TaskEnd,
 }
 
 /// One tapped file operation
@@ -128,6 +130,11 @@ pub fn clear_failpoints() {
 pub fn release(gate: u64) {
     with_state(|s| s.released.push(gate));
     GATE.notify_all();
+}
+
+/// Forget the releases that no paused operation has consumed (start of a new scenario)
+pub fn reset_gates() {
+    with_state(|s| s.released.clear());
 }
 
 /// Gates on which an operation is currently blocked
@@ -315,6 +322,25 @@ pub struct BlobState {
     pub file_size: u64,
     /// bytes not yet synced
     pub dirty: u64,
+}
+
+static DUMP_REFUSED: AtomicU64 = AtomicU64::new(0);
+
+/// Dump requests that found a dump task running and did not start one (process-wide)
+pub fn dump_requests_refused() -> u64 {
+    DUMP_REFUSED.load(Ordering::SeqCst)
+}
+
+pub(crate) fn on_dump_refused() {
+    DUMP_REFUSED.fetch_add(1, Ordering::SeqCst);
+}
+
+/// Hook called by a background task of the worker right before it returns: a `Pause` failpoint of kind
+/// `TaskEnd` whose pattern is contained in `name` keeps the task unfinished until its gate is released
+pub(crate) fn on_task_end(name: &str) {
+    if let Some(Action::Pause(g)) = check(OpKind::TaskEnd, Path::new(name)) {
+        wait_gate(g);
+    }
 }
 
 /// Messages handed to the background worker's channel so far (process-wide)
